@@ -96,14 +96,15 @@ def _replay(job):
     prog = Program(root, package=package, overrides=overrides)
     sub = Ctx(prop, "quick", program=prog, write_evidence=False)
     err = None
-    try:
-        for rule in mod.RULES:
+    for rule in mod.RULES:
+        try:
             rule(sub)
-    except AnalysisError as ex:
-        err = str(ex)
-    except Exception as ex:  # a crash of the analysis on an edited tree is an analysis error of that replay
-        err = f"internal error: {type(ex).__name__}: {ex}"
-    return label, sorted({o.rule for o in sub.rep.obligations if o.status == "violation"}), err
+        except AnalysisError as ex:
+            err = err or str(ex)
+        except Exception as ex:  # a crash of the analysis on an edited tree is an analysis error of that replay
+            err = err or f"internal error: {type(ex).__name__}: {ex}"
+    viol = sorted({o.rule for o in sub.rep.obligations if o.status == "violation"})
+    return label, viol, (None if viol else err)
 
 
 def _replay_all(jobs):
